@@ -426,6 +426,13 @@ Fixpoint perm_eq (l1 l2 : list gassign) : bool :=
   | [] => match l2 with [] => true | _ => false end
   | g :: l1' => match remove_first g l2 with Some r => perm_eq l1' r | None => false end
   end.
+(* Assignment.subs also substitutes the DEFAULT variable; the result is a variable only if no
+   default is a folded constant — otherwise the output is not a flat program of the model
+   (this only happens outside [constants_ok]) *)
+Definition constants_in_model (fp : flatprog) : bool :=
+  let '(F, kept) := scan true (body_vars fp) [] (fp_init fp) in
+  forallb (fun g => negb (mem_var (ga_default g) (sdom F))) (kept ++ fp_body fp).
+
 Definition constants_matches (fp out : flatprog) : bool :=
   let m := constants fp in
   let nb := List.length (fp_body fp) in
